@@ -115,6 +115,11 @@ func VfH_slip() {
 	}
 }
 
+// Frame classes from the SLIPMUX draft (not from the code under test): an IPv4
+// packet starts with 0x45..0x4f, an IPv6 packet with 0x60..0x6f.
+func vfIsV4(f byte) bool { return f >= 0x45 && f <= 0x4f }
+func vfIsV6(f byte) bool { return f >= 0x60 && f <= 0x6f }
+
 // SLIPMUX. Cases: payload length 0..2 x frame class {diagnostic, coap(4 byte payload), ipv4, ipv6, other}.
 func VfN_mux() int { return 3*4 + 1 }
 
@@ -130,19 +135,19 @@ func VfH_mux() {
 		vfNote("case:diagnostic/" + string(rune('0'+l)))
 	case 1:
 		frame = vfU8("frame")
-		vfAssume(IsIpv4Frame(frame))
+		vfAssume(vfIsV4(frame))
 		p = vfBytes("p", l+1)
 		vfAssume(p[0] == frame) // an IP packet starts with its own version nibble; the frame byte is not prepended
 		vfNote("case:ipv4/" + string(rune('1'+l)))
 	case 2:
 		frame = vfU8("frame")
-		vfAssume(IsIpv6Frame(frame))
+		vfAssume(vfIsV6(frame))
 		p = vfBytes("p", l+1)
 		vfAssume(p[0] == frame)
 		vfNote("case:ipv6/" + string(rune('1'+l)))
 	case 3:
 		frame = vfU8("frame")
-		vfAssume(!IsIpFrame(frame) && frame != FRAME_COAP && frame != END && frame != ESC && frame != FRAME_UNKNOWN)
+		vfAssume(!vfIsV4(frame) && !vfIsV6(frame) && frame != 0xa9 && frame != 0xc0 && frame != 0xdb && frame != 0x00)
 		p = vfBytes("p", l)
 		vfNote("case:other/" + string(rune('0'+l)))
 	default:
